@@ -654,4 +654,52 @@ theorem finish_run_outside_pattern {cfg : CloneCfg} (hc : cfg.clauses = true) (s
         have hp2 : (h2.step cfg st).stmt.plain := step_plain cfg (hs ▸ hp) hsi
         exact ih _ _ rfl hp2 (step_inv cfg h2 st) (step_inv cfg h2 st) hpat
 
+/-! ### derivation-free chains -/
+
+theorem getInstance_low (cfg : CloneCfg) {h : Handle} (hl : h.clone ≤ 1) (hi : h.Inv) :
+    getInstance cfg h = { clone := 0, stmt := h.stmt } := by
+  unfold getInstance
+  by_cases h0 : h.clone = 0
+  · simp [h0]; cases h; simp_all
+  · have h1 : h.clone = 1 := by omega
+    simp [h1, hi h1]
+
+theorem run_noderiv (cfg : CloneCfg) (steps : List Step) :
+    ∀ h : Handle, (∀ st ∈ steps, st.isDeriv = false) → h.clone ≤ 1 → h.Inv →
+      (h.run cfg steps).clone ≤ 1 ∧ (h.run cfg steps).Inv ∧ (h.run cfg steps).stmt = steps.foldl stmtStep h.stmt := by
+  induction steps with
+  | nil => intro h _ hl hi; exact ⟨hl, hi, rfl⟩
+  | cons st rest ih =>
+    intro h hall hl hi
+    have hd := hall st (by simp)
+    have g := getInstance_low cfg hl hi
+    have hc0 : (h.step cfg st).clone = 0 := by
+      cases st <;> simp_all [Handle.step, Step.isDeriv]
+    have hst : (h.step cfg st).stmt = stmtStep h.stmt st := by
+      cases st <;> simp_all [Handle.step, Step.isDeriv, stmtStep]
+    have := ih (h.step cfg st) (fun x hx => hall x (by simp [hx])) (by omega) (step_inv cfg h st)
+    refine ⟨this.1, this.2.1, ?_⟩
+    show ((h.step cfg st).run cfg rest).stmt = _
+    rw [this.2.2, hst]; rfl
+
+theorem finish_low {cfg : CloneCfg} (hc : cfg.clauses = true) (sch : Schema) (s : Store) {h : Handle}
+    (hl : h.clone ≤ 1) (hi : h.Inv) (f : Fin) : finish cfg sch s h f = finishS sch s h.stmt f := by
+  have g := getInstance_low cfg hl hi
+  have g2 : (getInstance cfg (h.step cfg .session)).stmt.conds = h.stmt.conds := by
+    simp [Handle.step, getInstance, cloneStmt, hc]
+  cases f <;> simp [finish, finishS, g, g2]
+
+theorem foldl_filter_deriv (steps : List Step) : ∀ st : Stmt,
+    (steps.filter (fun x => !x.isDeriv)).foldl stmtStep st = steps.foldl stmtStep st := by
+  induction steps with
+  | nil => intro st; rfl
+  | cons x rest ih =>
+    intro st
+    cases hd : x.isDeriv with
+    | true =>
+      have : stmtStep st x = st := by cases x <;> simp_all [stmtStep, Step.isDeriv]
+      simp [List.filter, hd, ih, this]
+    | false => simp [List.filter, hd, ih]
+
+
 end Gorm.Upsert
